@@ -12,7 +12,6 @@ PARTIAL = ["proved: the tree-level round trip (roundtrip_tree, RoundTrip1-6) and
            "wire_roundtrip_unclosed: to_etree -> serializer text -> tokenizer + tree builder -> from_etree returns the same instance, plain and pretty-printed); the hypothesis "
            "conv (escape (unconv v)) = Some v on element values is C09/C10's subject; the header + byte encoding around the body (C05/C12) is not restated inside these theorems: "
            "the complete file round trip is exercised on the implementation for every class x 6 wire forms x header versions",
-           "classes with a groom/ungroom rename (MAIL, MFINFO, STOCKINFO) are outside the generic theorem; they are covered by the correspondence and implementation runs only",
            "the SGML form without end tags is proved for trees without empty aggregates (recorded finding) and without a data element closing an aggregate of its own name"]
 MANIFEST = {
     "engine": "Schema",
@@ -20,7 +19,7 @@ MANIFEST = {
             "back as the very same instance with no warning - same classes and nesting, same list members in the same order, equal element values (given conv (unconv v) = v, "
             "C09/C10). Proved by structural induction over the instance: shape of the emitted children, completeness of the reader's fold over them (sequence check, duplicate "
             "check, values), canonical constructor arguments. The class-table hypothesis is a decidable condition proved sound and evaluated by the kernel on the table "
-            "regenerated from /repo (all concrete classes pass except the 4 named in the obligation); instance validity is a decidable predicate proved sound and evaluated on "
+            "regenerated from /repo (all concrete classes pass, the three with a groom/ungroom rename included, except TAX1099INT_V100); instance validity is a decidable predicate proved sound and evaluated on "
             "real instances of every class. The implementation is exercised on every class x {XML, SGML closed, SGML unclosed} x {pretty, plain} x header versions: bytes from "
             "OFXClient.serialize, parsed by OFXTree, converted, deep-compared.",
     "note": "Trusted: Coq kernel + vm_compute; translator; hand transcription Model/Convert.v validated by correspondence; ET serializer / tokenizer / header parser are exercised, "
@@ -29,7 +28,7 @@ MANIFEST = {
 V1 = [102, 103, 151, 160]
 V2 = [200, 201, 202, 203, 210, 211, 220]
 FORMS = [("xml", True, V2), ("sgml-closed", True, V1), ("sgml-unclosed", False, V1)]
-EXCLUDED = ("MAIL", "MFINFO", "STOCKINFO", "TAX1099INT_V100")
+EXCLUDED = ("TAX1099INT_V100",)
 
 
 def translate():
